@@ -253,7 +253,7 @@ impl Client {
                 file,
                 self.clean_on_error,
                 self.blocksize,
-                DEFAULT_TIMEOUT,
+                self.timeout,
                 self.windowsize,
                 1,
             )
@@ -263,7 +263,7 @@ impl Client {
                 self.file_path.clone(),
                 self.clean_on_error,
                 self.blocksize,
-                DEFAULT_TIMEOUT,
+                self.timeout,
                 self.windowsize,
                 1,
             )
